@@ -245,7 +245,12 @@ def r4_3(ctx, rc):
             rc.ok({'filter': 'exists(join(dir_, name), created_files)'},
                   key=key)
     W = _ex(ctx, '_append_walk')
-    sgw = ctx.E.super(W, lambda g: False)
+    # private helpers of the executor that build the two lists are part of
+    # the walk (the recursion itself stays a call)
+    sgw = ctx.E.super(W, lambda g: g.cls == W.cls and not g.is_public and
+                      g is not W and g.name.startswith('_') and
+                      any(isinstance(r, ast.Return) and isinstance(
+                          r.value, ast.Tuple) for r in ast.walk(g.node)))
     ov = [p for p in W.params
           if 'CreatedFiles' in prog.param_types.get((W.qualname, p), ())]
     if not ov:
@@ -255,15 +260,46 @@ def r4_3(ctx, rc):
     tup = None
     for n in ast.walk(W.node):
         if isinstance(n, ast.Call) and isinstance(n.func, ast.Attribute) and \
-                n.func.attr == 'append' and n.args and isinstance(
-                    n.args[0], ast.Tuple) and len(n.args[0].elts) == 3:
-            tup = n.args[0]
+                n.func.attr == 'append' and n.args:
+            a0 = n.args[0]
+            if isinstance(a0, ast.Name):
+                cn0 = ctx.H.node_of(W, n)
+                if cn0:
+                    a0 = ctx.H.subst(a0, W, cn0[0], depth=1)
+            if isinstance(a0, ast.Tuple) and len(a0.elts) == 3:
+                tup = a0
     if tup is None or not all(isinstance(e, ast.Name) for e in tup.elts[1:]):
         raise AnalysisError('walk result tuple not recognised')
     dirs_name, files_name = tup.elts[1].id, tup.elts[2].id
+    # the lists may be built by a helper that returns them as a pair: the
+    # helper's own names for them
+    dirs_names = {(W.qualname, dirs_name)}
+    files_names = {(W.qualname, files_name)}
+    for a in ast.walk(W.node):
+        if isinstance(a, ast.Assign) and len(a.targets) == 1 and isinstance(
+                a.targets[0], ast.Tuple) and isinstance(a.value, ast.Call):
+            tnames = [e.id if isinstance(e, ast.Name) else None
+                      for e in a.targets[0].elts]
+            for g in prog.resolve_call(a.value, W):
+                if not isinstance(g, Func):
+                    continue
+                for r in ast.walk(g.node):
+                    if isinstance(r, ast.Return) and isinstance(
+                            r.value, ast.Tuple) and len(
+                                r.value.elts) == len(tnames):
+                        for tn, re_ in zip(tnames, r.value.elts):
+                            if isinstance(re_, ast.Name):
+                                if tn == dirs_name:
+                                    dirs_names.add((g.qualname, re_.id))
+                                if tn == files_name:
+                                    files_names.add((g.qualname, re_.id))
+    n_app = 0
     for x in sgw.nodes:
         t = _append_target(x)
-        if t == files_name:
+        t = (x.func.qualname, t) if t is not None else None
+        if t in files_names or t in dirs_names:
+            n_app += 1
+        if t in files_names:
             seen = sgw.reach([sgw.entry], edge_ok=lambda a, b, lab: not kfact(
                 lab, 'T', ('is_file',), ov))
             key = 'walk: file list filtered by virtual is_file'
@@ -274,7 +310,7 @@ def r4_3(ctx, rc):
                              key=key)
             else:
                 rc.ok({'filter': 'is_file(join, overlay)'}, key=key)
-        elif t == dirs_name:
+        elif t in dirs_names:
             s1 = sgw.reach([sgw.entry], edge_ok=lambda a, b, lab: not kfact(
                 lab, 'T', ('is_dir',), ov))
             s2 = sgw.reach([sgw.entry], edge_ok=lambda a, b, lab: not kfact(
@@ -287,6 +323,10 @@ def r4_3(ctx, rc):
                              x.where(), key=key)
             else:
                 rc.ok({'filter': 'not is_file and is_dir'}, key=key)
+    if n_app < 2:
+        raise AnalysisError('the walk helper fills its directory and file '
+                            'lists nowhere the analysis can see (%d append '
+                            'sites)' % n_app)
     # recursion only into names of the directory list
     rec = [c for c in prog.calls_in(W)
            if any(isinstance(g, Func) and g.qualname == W.qualname
@@ -336,8 +376,23 @@ def r4_4(ctx, rc):
     prog = ctx.prog
     real = real_layer(ctx)
     n = 0
+    # the virtual queries: the registered operations and the executor's own
+    # helpers they reach (a utility that merely lives in the class is not a
+    # query)
+    ops = prog.operations_names(R.executor) or set()
+    qset = {m for m in prog.classes[R.executor].methods.values()
+            if m.name in ops}
+    todo = list(qset)
+    while todo:
+        f0 = todo.pop()
+        for c in prog.calls_in(f0):
+            for g in prog.resolve_call(c, f0):
+                if isinstance(g, Func) and g.cls == R.executor and \
+                        g not in qset and not g.is_ctor_call:
+                    qset.add(g)
+                    todo.append(g)
     for m in prog.classes[R.executor].methods.values():
-        if m.qualname in real:
+        if m.qualname in real or m not in qset:
             continue
         raises = [x for x in ast.walk(m.node) if isinstance(x, ast.Raise)
                   and x.exc is not None]
@@ -629,10 +684,22 @@ def r4_11(ctx, rc):
                         not unreserved_fact(lab, d, m))
         return not any(site_pred(x) and x.id in seen for x in sg.nodes)
 
+    visiting = set()
+
     def param_ok(m, pname, depth=0):
-        """Every call site passes an unreserved element."""
-        if depth > 3:
+        """Every call site passes an unreserved element (a recursion
+        through a helper is assumed while it is being established)."""
+        if depth > 6:
             return False
+        if (m.qualname, pname) in visiting:
+            return True
+        visiting.add((m.qualname, pname))
+        try:
+            return _param_ok(m, pname, depth)
+        finally:
+            visiting.discard((m.qualname, pname))
+
+    def _param_ok(m, pname, depth):
         callers = prog.callers().get(m.qualname, [])
         if not callers:
             return False
